@@ -25,9 +25,9 @@ func init() {
 			"'eventually executed' is restated as 'every Call returns within 10000 heartbeats once the gates are open'",
 		},
 		Families: []core.Family{
-			{Name: "mixed", N: core.TierN(600, 8000), Batch: 20, Run: c14Mixed},
-			{Name: "shrink-gated", N: core.TierN(300, 4000), Batch: 20, Run: c14Shrink},
-			{Name: "micro-churn", N: core.TierN(64, 640), Batch: 4, Run: c14Churn},
+			{Name: "mixed", N: core.TierN(600, 32000), Batch: 20, Run: c14Mixed},
+			{Name: "shrink-gated", N: core.TierN(300, 16000), Batch: 20, Run: c14Shrink},
+			{Name: "micro-churn", N: core.TierN(64, 2560), Batch: 4, Run: c14Churn},
 		},
 	})
 }
